@@ -382,6 +382,25 @@ def check(ctx, rep):
     # ------------------------------------------------------------------ R10e
     complete_pickling_obligations(ctx, rep, "R10e")
 
+    # ------------------------------------------------------------------ R10g
+    rep.rule("R10g", "the age of a cache file is the time it was written: nothing on the request path sets file times (utime / touch) - a cache whose "
+             "time stamp was moved forward without being rewritten is served as fresh", floor=1)
+    hits = []
+    for f in prog.all_functions():
+        if not f.module.name.startswith("pygopherd") or ".tests" in f.module.name or f.module.name.endswith("testutil"):
+            continue
+        for n in ast.walk(f.node):
+            if isinstance(n, ast.Call):
+                d = dotted(n.func) or ""
+                last = d.split(".")[-1] if d else (n.func.attr if isinstance(n.func, ast.Attribute) else "")
+                if last in ("utime", "utimes", "futimes", "lutimes", "touch", "futimens", "utimensat"):
+                    hits.append((f, n))
+    for f, n in hits:
+        rep.add("R10g", f"{f.qualname}: {norm(n)[:60]}", False, ctx.where(f, n),
+                "a file's time stamp is set without the file being written: for a cache file the freshness test (R10a) then measures the age of the "
+                "time stamp, not of the listing inside", key=f"R10g|{f.qualname}|{norm(n.func)}")
+    if not hits:
+        rep.ok("R10g", "no call sets file times in pygopherd/", "pygopherd", "", key="R10g|none")
     # ------------------------------------------------------------------ R10f
     rep.rule("R10f", "one directory, one selector: the other spellings of a directory's path (`dir/.`, `dir/./`, `dir//`, `dir/x/..`) are refused by "
              "the selector filter after the protocols' normalisation - a listing made under such a spelling finds every child refused and "
